@@ -33,6 +33,9 @@ NODE = ("class", "Node", [("val", "int"), ("tags", "[int...]"), ("next", "Self?"
          ("link", [("o", "Self")], None, [("setfield", V("self"), "next", V("o"))]),
          # methods declared `-> Self` that hand back ANOTHER object: the next link of a call chain must run on what was returned
          ("other", [("o", "Self")], "Self", [("return", V("o"))]),
+         # a method that calls itself through self, updating the object between the calls
+         ("climb", [("k", "int")], "int", [("if", ("bin", ">", V("k"), I(0)), [("expr", M("self", "inc")), ("return", ("bin", "+", M("self", "climb", ("bin", "-", V("k"), I(1))), I(10)))], None),
+                                           ("return", SF("val"))]),
          ("via", [("o", "Self")], "Self", [("return", M(M("self", "other", V("o")), "inc"))]),
          # list-valued field stores: share another object's list, replace the list by a fresh one (equal contents, other identity)
          ("adopt", [("o", "Self")], None, [("setfield", V("self"), "tags", F("o", "tags"))]),
@@ -81,6 +84,7 @@ TEMPLATES["graph"] = dict(
          ("expr", M("b", "link", V("a"))), ("expr", M("a", "link", V("a"))), ("expr", M("a", "unlink")),
          ("print", M("a", "next_val")), ("print", M("b", "next_val")),
          lambda k: [asg(f"r{k}", M(M("a", "inc"), "inc")), ("print", ("is", V(f"r{k}"), V("a")))],
+         ("print", M("a", "climb", I(2))), ("print", M("c", "climb", I(1))),
          ("expr", M(M("a", "other", V("b")), "inc")), ("expr", M(M("b", "other", V("a")), "tag", I(1))),
          ("expr", M(M(M("a", "other", V("b")), "other", V("c")), "inc")), ("expr", M("a", "via", V("b"))),
          lambda k: [asg(f"ch{k}", M(M("b", "other", V("a")), "inc")), ("print", ("is", V(f"ch{k}"), V("a"))), ("print", ("is", V(f"ch{k}"), V("b")))],
